@@ -3,6 +3,7 @@ C13 — Diff is total on untrusted page-range input.
 (The machine stack is outside any functional model: see `C13_partial` note below and DESIGN §9, F2.)
 -/
 import MstVerif.Proofs.DiffList
+import MstVerif.Proofs.DiffDepth
 import Mathlib.Data.Nat.Basic
 
 namespace Mst.Props
@@ -26,6 +27,31 @@ theorem C13_partial (loc peer : List (PR K D)) (hl : PRValid loc) (hp : PRValid 
 constructor can rely on. -/
 theorem C13_constructor (s e : K) (h : D) : (∃ r, PR.new s e h = .ok r) ↔ s ≤ e :=
   PR_new_ok_iff s e h
+
+/-! ### The stack, as far as a functional model can carry it
+`diffDepth` (Model/DiffDepth.lean) is the same walk instrumented with the number of nested
+`recurse_subtree → recurse_diff` frame pairs — one Rust stack frame pair per unit. -/
+
+/-- The instrumented walk IS the walk: forgetting the depth gives exactly `recurseDiff`. -/
+theorem C13_depth_refines (fuel : Nat) (root : PR K D) (lastP : Option (PR K D))
+    (peer loc : List (PR K D)) (b : Builder K) :
+    (match recurseDiffD fuel root lastP peer loc b with
+     | .error e => Except.error e
+     | .ok (p, l, b', _) => .ok (p, l, b')) = recurseDiff fuel root lastP peer loc b :=
+  recurseDiffD_erase fuel root lastP peer loc b
+
+/-- Stack use is bounded by the input: the nesting depth never exceeds the length of the peer list. -/
+theorem C13_depth_le_input (loc peer : List (PR K D)) (hl : PRValid loc) (hp : PRValid peer) :
+    ∃ d, diffDepth loc peer = .ok d ∧ d ≤ peer.length :=
+  diffDepth_total loc peer hl hp
+
+/-- … and that bound is attained: a strictly nested chain of `n` ranges drives the recursion to
+depth `n`. So NO fixed stack suffices for "however deeply nested" untrusted lists: the clause of
+the property about the call stack is false of the algorithm as written (known finding F2); the
+implementation-side replay shows the overflow at depth ≈ 12 000 on a 2 MiB stack. -/
+theorem C13_depth_chain (n : Nat) (h₁ h₂ : D) (hne : h₁ ≠ h₂) :
+    diffDepth (chain n h₁) (chain n h₂) = .ok n :=
+  diffDepth_chain n h₁ h₂ hne
 
 /-- Non-vacuity (test): a nested, unordered, duplicated pair of lists. -/
 example : ∃ out, diff ([⟨3, 9, 1⟩, ⟨1, 20, 2⟩, ⟨3, 9, 1⟩] : List (PR Nat Nat))
